@@ -1394,8 +1394,52 @@ fn oracle_c10(plan: &ResolvePlan, obs: &Observations) -> RunResult {
                     _ => false,
                 }
             });
+            // an upstream answer that carries an alias *owned by a local
+            // authoritative zone* (open finding S9 under C01) shows here as that
+            // owner appearing twice: once from the zone, once forged
+            let forged_local_alias = rrs.iter().any(|rr| {
+                matches!(rr.rtype_with_data, RecordTypeWithData::CNAME { .. })
+                    && rr.name.to_dotted_string().to_ascii_lowercase().ends_with(AUTH_APEX)
+                    && !plan.local.iter().any(|z| {
+                        z.records.iter().any(|l| {
+                            universe::names_equal(&l.owner, &rr.name.to_dotted_string())
+                                && crate::util::parse_data(&l.data) == rr.rtype_with_data
+                        })
+                    })
+            });
+            // a loop re-entered in the middle of a multi-link upstream reply: the
+            // repeated owner's alias arrived in a reply to a question about
+            // another name, so no question was ever pushed for it a second time
+            let mut owners_seen: Vec<DomainName> = Vec::new();
+            let mut repeated: Vec<DomainName> = Vec::new();
+            for rr in &rrs {
+                if matches!(rr.rtype_with_data, RecordTypeWithData::CNAME { .. }) {
+                    if owners_seen.contains(&rr.name) {
+                        repeated.push(rr.name.clone());
+                    }
+                    owners_seen.push(rr.name.clone());
+                }
+            }
+            let reentered_inside_reply = !repeated.is_empty()
+                && repeated.iter().all(|x| {
+                    obs.exchanges[q.exchanges.clone()].iter().any(|e| {
+                        let asked_other = e
+                            .request
+                            .as_ref()
+                            .and_then(|m| m.questions.first())
+                            .is_some_and(|qq| qq.name != *x);
+                        asked_other
+                            && e.reply.as_ref().is_some_and(|m| {
+                                m.answers.iter().any(|a| {
+                                    a.name == *x && matches!(a.rtype_with_data, RecordTypeWithData::CNAME { .. })
+                                })
+                            })
+                    })
+                });
             res.violations.push(
                 Violation::new("c10.chain_shape")
+                    .fact("loop_reentered_inside_a_multi_link_upstream_reply", reentered_inside_reply)
+                    .fact("upstream_alias_for_locally_owned_name", forged_local_alias)
                     .fact("upstream_reply_out_of_order", upstream_order)
                     .detail(json!({
                         "why": why, "q": qfacts(q), "reference_chain": ref_chain,
